@@ -80,17 +80,18 @@ Definition pad_to (blk cur : N) : bytes :=
   zeros ((blk - cur mod blk) mod blk).
 
 (** a packed C structure as a table of fields *)
-Inductive fld := F32 (v : N) | F64 (v : N) | FB (n : N) (b : bytes).
+Inductive fld := F16 (v : N) | F32 (v : N) | F64 (v : N) | FB (n : N) (b : bytes).
 
 Definition enc_fld (be : bool) (f : fld) : bytes :=
   match f with
+  | F16 v => put16 be v
   | F32 v => put32 be v
   | F64 v => put64 be v
   | FB n b => fit n b
   end.
 
 Definition fld_len (f : fld) : N :=
-  match f with F32 _ => 4 | F64 _ => 8 | FB n _ => n end.
+  match f with F16 _ => 2 | F32 _ => 4 | F64 _ => 8 | FB n _ => n end.
 
 Definition enc_flds (be : bool) (fs : list fld) : bytes := flat_map (enc_fld be) fs.
 
